@@ -156,7 +156,8 @@ def run(chk, repo):
                        why="with a given size nothing is read ahead and an empty input still flushes the (zero) memory; "
                            "outside 'if size is None' the first block is always peeked / the generator may end early", node=n)
         chk.floor("C09.detect", npk, 2, "peek / bare return sites in overlap_add[%s]" % sname)
-    chk.floor("C09.fresh", nfresh, 1, "in-place window updates")
+    if nfresh == 0:
+        chk.ok("C09.fresh", W("overlap_add"), "the window is never written in place (re-bound instead)")
     for sname in ("list", "numpy"):
         fn = repo.strategy(LA, "overlap_add", sname).node
         Wn = W("overlap_add[%s]" % sname)
@@ -204,6 +205,15 @@ def run(chk, repo):
     wr = _resolve(repo, LA, "stft[rfft].wrapper")
     Ww = W("stft[rfft].wrapper")
     wb = docstring_free(wr.body)
+    # a dict filled in the loop and merged afterwards by ola_params.update(T) stands for ola_params itself
+    ola_names = {"ola_params"}
+    for st in wb:
+        if isinstance(st, ast.Expr) and isinstance(st.value, ast.Call) and unparse(st.value.func) == "ola_params.update" \
+                and len(st.value.args) == 1 and isinstance(st.value.args[0], ast.Name) and not st.value.keywords:
+            tname = st.value.args[0].id
+            inits_ = [x for x in wb if isinstance(x, ast.Assign) and unparse(x.targets[0]) == tname]
+            if len(inits_) == 1 and unparse(inits_[0].value) in ("{}", "dict()") and wb.index(inits_[0]) < wb.index(st):
+                ola_names.add(tname)
     keys_before_copy = []
     copy_seen = False
     keys_after = []
@@ -217,7 +227,7 @@ def run(chk, repo):
                 (keys_after if copy_seen else keys_before_copy).append(t.slice.value)
             elif unparse(t) == "ola_params":
                 copy_seen = True
-                chk.decide(unparse(st.value) == "blk_params.copy()", "C09.routing", Ww, short(st),
+                chk.decide(unparse(st.value) in ("blk_params.copy()", "dict(blk_params)", "dict(**blk_params)"), "C09.routing", Ww, short(st),
                            why="overlap-add options must start as a copy of the block options", node=st)
         elif isinstance(st, ast.For):
             for n in ast.walk(st):
@@ -228,7 +238,7 @@ def run(chk, repo):
                         (keys_after if copy_seen else keys_before_copy).extend(
                             e.value for e in it.elts if isinstance(e, ast.Constant))
                 if isinstance(n, ast.Assign) and isinstance(n.targets[0], ast.Subscript) \
-                        and unparse(n.targets[0].value) == "ola_params":
+                        and unparse(n.targets[0].value) in ola_names:
                     ola_writes.append((n, st))
     chk.require(copy_seen, "stft wrapper: ola_params = blk_params.copy() not found")
     chk.decide(sorted(keys_before_copy) == ["hop", "size"], "C09.routing", Ww,
@@ -303,6 +313,24 @@ def run(chk, repo):
             if isinstance(m, ast.Call) and unparse(m.func) == "mix_dict" and [unparse(a) for a in m.args] == ["kwparams", new_kw]:
                 md = [n for n in ast.walk(arm[0]) if isinstance(n, ast.Assign) and unparse(n.targets[0]) == "mix_dict"]
                 ok = len(md) == 1 and unparse(md[0].value) == "lambda *dicts: dict(cfi((iteritems(d) for d in dicts)))"
+                mdef = [n for n in ast.walk(arm[0]) if isinstance(n, FuncTypes) and n.name == "mix_dict"]
+                if not md and len(mdef) == 1 and mdef[0].args.vararg is not None:
+                    # def mix_dict(*dicts): r = {} ; for d in dicts: (r.update(d) | for k, v in items(d): r[k] = v) ; return r
+                    va_ = mdef[0].args.vararg.arg
+                    b_ = docstring_free(mdef[0].body)
+                    ok = len(b_) == 3 and isinstance(b_[0], ast.Assign) and unparse(b_[0].value) in ("{}", "dict()") \
+                        and isinstance(b_[1], ast.For) and unparse(b_[1].iter) == va_ and isinstance(b_[2], ast.Return) \
+                        and unparse(b_[2].value) == unparse(b_[0].targets[0])
+                    if ok:
+                        r_ = unparse(b_[0].targets[0])
+                        d_ = unparse(b_[1].target)
+                        inner_ = b_[1].body
+                        ok = len(inner_) == 1 and (
+                            unparse(inner_[0]) == "%s.update(%s)" % (r_, d_) or
+                            (isinstance(inner_[0], ast.For) and unparse(inner_[0].iter) in ("iteritems(%s)" % d_, "%s.items()" % d_)
+                             and isinstance(inner_[0].target, ast.Tuple) and len(inner_[0].body) == 1
+                             and unparse(inner_[0].body[0]) == "%s[%s] = %s" % (r_, unparse(inner_[0].target.elts[0]),
+                                                                               unparse(inner_[0].target.elts[1]))))
             elif isinstance(m, ast.Call) and unparse(m.func) == "dict" and len(m.args) == 1 and unparse(m.args[0]) == "kwparams" \
                     and [unparse(k.value) for k in m.keywords if k.arg is None] == [new_kw]:
                 ok = True           # dict(kwparams, **new_kws): the later (new) keywords win
@@ -310,7 +338,8 @@ def run(chk, repo):
                why="a keyword given again in the partial/decorator style (wnd, hop, ola_*) must replace the stored one; "
                    "here the stored value wins or the merge is not recognised as 'stored first, new last'", node=arm[0])
     kw0 = [unparse(s_) for s_ in wb[:2]]
-    chk.decide(kw0 == ["kws = kwparams.copy()", "kws.update(kwargs)"], "C09.merge", Ww, " ; ".join(kw0),
+    chk.decide(kw0 == ["kws = kwparams.copy()", "kws.update(kwargs)"] or kw0[:1] == ["kws = dict(kwparams, **kwargs)"],
+               "C09.merge", Ww, " ; ".join(kw0),
                why="call-time keywords must override the stored ones", node=wr)
 
     bg = _resolve(repo, LA, "stft[rfft].wrapper.blk_gen")
@@ -340,6 +369,15 @@ def run(chk, repo):
                node=bg)
     pa = [s for s in bb if isinstance(s, ast.Assign) and unparse(s.targets[0]) == "process"]
     ok = len(pa) == 1 and unparse(pa[0].value) == "lambda blk: reduce(lambda data, f: f(data), funcs, blk)"
+    pdef = [s for s in bb if isinstance(s, FuncTypes) and s.name == "process"]
+    if not pa and len(pdef) == 1 and len(pdef[0].args.args) == 1:
+        # def process(data): for f in funcs: data = f(data) ; return data      (the same left fold)
+        dn_ = pdef[0].args.args[0].arg
+        pb_ = docstring_free(pdef[0].body)
+        ok = len(pb_) == 2 and isinstance(pb_[0], ast.For) and unparse(pb_[0].iter) == "funcs" and len(pb_[0].body) == 1 \
+            and unparse(pb_[0].body[0]) == "%s = %s(%s)" % (dn_, unparse(pb_[0].target), dn_) \
+            and unparse(pb_[1]) == "return %s" % dn_
+        pa = pdef
     chk.decide(ok, "C09.order", Wb, short(pa[0]) if pa else "process missing",
                why="stages must be applied left to right to the running data", node=bg)
     wi = [s for s in bb if isinstance(s, ast.If) and unparse(s.test) == "wnd is None"]
@@ -363,6 +401,17 @@ def run(chk, repo):
         if ok:
             md = [s for s in win if isinstance(s, ast.Assign) and unparse(s.targets[0]) == mulname]
             ok = (len(md) == 1 and canon(mod, md[0].value) == "operator.mul") or canon(mod, b0.value.args[0]) == "operator.mul"
+        elif isinstance(b0, ast.Assign) and isinstance(b0.value, (ast.ListComp, ast.GeneratorExp)) \
+                and len(b0.value.generators) == 1 and not b0.value.generators[0].ifs:
+            # [el * w for el, w in zip(blk, wnd)]: the same element-wise product
+            g_ = b0.value.generators[0]
+            e_ = b0.value.elt
+            okz = isinstance(g_.iter, ast.Call) and unparse(g_.iter.func) in ("xzip", "zip") \
+                and sorted(unparse(a) for a in g_.iter.args) == sorted([blkv, "wnd"]) and isinstance(g_.target, ast.Tuple) \
+                and len(g_.target.elts) == 2 and isinstance(e_, ast.BinOp) and isinstance(e_.op, ast.Mult) \
+                and sorted([unparse(e_.left), unparse(e_.right)]) == sorted(unparse(t_) for t_ in g_.target.elts)
+            ok = okz and isinstance(b1, ast.Expr) and isinstance(b1.value, ast.Yield) \
+                and unparse(b1.value.value) == "process(%s)" % unparse(b0.targets[0].value if isinstance(b0.targets[0], ast.Subscript) else b0.targets[0])
     chk.decide(ok, "C09.order", Wb, "window: " + (" ; ".join(unparse(s) for s in l1[0].body) if l1 else "?"),
                why="the block must be multiplied by the analysis window (operator.mul, element by element) before any "
                    "user stage sees it", node=bg)
@@ -455,7 +504,8 @@ def _list_variant(chk, mod, Wn, fn, body, main, flush, env, size, hop):
         ok = tb[0] == "steps = Stream(wnd).map(abs).blocks(hop).map(tuple)" and tb[1] in (
             "gain = max(xmap(sum, xzip(*steps)))", "gain = max(map(sum, zip(*steps)))") \
             and isinstance(inner.body[2], ast.If) and unparse(inner.body[2].test) == "gain" \
-            and unparse(inner.body[2].body[0]) == "wnd[:] = (w / gain for w in wnd)"
+            and unparse(inner.body[2].body[0]) in ("wnd[:] = (w / gain for w in wnd)", "wnd[:] = [w / gain for w in wnd]",
+                                                   "wnd = [w / gain for w in wnd]")
         chk.decide(ok, "C09.gain", Wn, " ; ".join(tb)[:160], why="gain must be the largest hop-strided sum of |w| and the "
                    "window must be divided by it", node=inner)
         eb = inner.orelse
